@@ -9,6 +9,7 @@ import (
 	"encoding/json"
 	"fmt"
 	"os"
+	"runtime"
 	"strings"
 	"sync"
 	"sync/atomic"
@@ -41,25 +42,30 @@ type c13Scenario struct {
 	// OldServer: the server is 5.0.0 (< 5.5.0: the library closes streams one at a time and relies on the stream-end
 	// notification that follows each close)
 	OldServer bool `json:"old_server,omitempty"`
+	// CBMember: Couchbase heart-beat membership (real, on the simulated node; only with Mitigate = real client): its
+	// heart-beat and monitor loops are background activity that must stop
+	CBMember bool `json:"cb_member,omitempty"`
 }
 
 type c13Result struct {
-	Ready         bool              `json:"ready"`
-	CloseReturned bool              `json:"close_returned"`
-	CloseMs       int64             `json:"close_ms"`
-	Settled       map[string]uint64 `json:"settled"`  // positions settled before Close was called
-	Durable       map[string]uint64 `json:"durable"`  // durable store when Start() returned
-	OpenVbs       int               `json:"open_vbs"` // vBucket streams open when Close was called
-	CloseStreams  int               `json:"close_streams"`
-	DcpClose      int               `json:"dcp_close"`
-	ClientClose   int               `json:"client_close"`
-	ConsumedAfter int               `json:"consumed_after"` // ConsumeEvent calls after Start() returned
-	WritesAfter   int               `json:"writes_after"`   // per-vBucket store writes in the quiet window
-	PingsAfter    int               `json:"pings_after"`
-	OpensAfter    int               `json:"opens_after"`
-	ObservesAfter int               `json:"observes_after"`
-	StreamWasOpen bool              `json:"stream_was_open"`
-	Note          string            `json:"note"`
+	Ready          bool              `json:"ready"`
+	CloseReturned  bool              `json:"close_returned"`
+	CloseMs        int64             `json:"close_ms"`
+	Settled        map[string]uint64 `json:"settled"`  // positions settled before Close was called
+	Durable        map[string]uint64 `json:"durable"`  // durable store when Start() returned
+	OpenVbs        int               `json:"open_vbs"` // vBucket streams open when Close was called
+	CloseStreams   int               `json:"close_streams"`
+	DcpClose       int               `json:"dcp_close"`
+	ClientClose    int               `json:"client_close"`
+	ConsumedAfter  int               `json:"consumed_after"` // ConsumeEvent calls after Start() returned
+	WritesAfter    int               `json:"writes_after"`   // per-vBucket store writes in the quiet window
+	PingsAfter     int               `json:"pings_after"`
+	OpensAfter     int               `json:"opens_after"`
+	ObservesAfter  int               `json:"observes_after"`
+	Leftover       []string          `json:"leftover"`         // library frames of goroutines alive after the quiet window
+	MemberOpsAfter int               `json:"member_ops_after"` // KV requests on membership documents in the quiet window
+	StreamWasOpen  bool              `json:"stream_was_open"`
+	Note           string            `json:"note"`
 }
 
 func c13Child(raw json.RawMessage) any {
@@ -100,6 +106,12 @@ func c13Child(raw json.RawMessage) any {
 		cfg.ConnectionTimeout = 5 * time.Second
 		maxInterval += 30*time.Millisecond + cfg.RollbackMitigation.Interval
 		client = couchbase.VerifNewClient(cfg, lb.agent, lb.agent, lb.dcp)
+		if sc.CBMember && sc.State != "gate_blocked" {
+			cfg.Dcp.Group.Membership.Type = membership.CouchbaseMembershipType
+			cfg.Dcp.Group.Membership.Config = map[string]string{"heartbeatInterval": "12ms", "monitorInterval": "15ms", "heartbeatToleranceDuration": "5s", "timeout": "2s"}
+			cfg.Dcp.Group.Membership.RebalanceDelay = 5 * time.Millisecond
+			maxInterval += 30 * time.Millisecond
+		}
 		if sc.State == "gate_blocked" {
 			// hybrid: the streams are played by the harness (its own feeder goroutine, as in Layer A), the
 			// rollback-mitigation polling is real and runs against the simulated cluster
@@ -349,11 +361,15 @@ func c13Child(raw json.RawMessage) any {
 	cl.mu.Lock()
 	p0, o0 := len(cl.pings), len(cl.opens)
 	cl.mu.Unlock()
-	obs0 := 0
+	obs0, mem0 := 0, 0
+	isMemberOp := func(key string) bool { return strings.Contains(key, ":instance:") }
 	if lb != nil {
 		for _, en := range lb.c.Log() {
 			if en.Cmd == cmdObserveSeqNo {
 				obs0++
+			}
+			if isMemberOp(en.Key) {
+				mem0++
 			}
 		}
 	}
@@ -369,13 +385,33 @@ func c13Child(raw json.RawMessage) any {
 	res.PingsAfter, res.OpensAfter = len(cl.pings)-p0, len(cl.opens)-o0
 	res.CloseStreams, res.DcpClose, res.ClientClose = len(cl.closes), cl.dcpClose, cl.close
 	cl.mu.Unlock()
+	// goroutines still executing library code after shutdown (stack frames inside the go-dcp module)
+	buf := make([]byte, 4<<20)
+	buf = buf[:runtime.Stack(buf, true)]
+	for _, g := range strings.Split(string(buf), "\n\n") {
+		// (a goroutine blocked for ever in a channel send is a leak, not an activity: not judged here)
+		if strings.Contains(g, "github.com/Trendyol/go-dcp") && !strings.Contains(g, "verif/props.c13Child") && !strings.Contains(strings.SplitN(g, "\n", 2)[0], "[chan send") {
+			first := ""
+			for _, l := range strings.Split(g, "\n") {
+				if strings.Contains(l, "github.com/Trendyol/go-dcp") {
+					first = strings.TrimSpace(l)
+					break
+				}
+			}
+			res.Leftover = append(res.Leftover, first)
+		}
+	}
 	if lb != nil {
 		for _, en := range lb.c.Log() {
 			if en.Cmd == cmdObserveSeqNo {
 				res.ObservesAfter++
 			}
+			if isMemberOp(en.Key) {
+				res.MemberOpsAfter++
+			}
 		}
 		res.ObservesAfter -= obs0
+		res.MemberOpsAfter -= mem0
 	}
 	return res
 }
@@ -428,6 +464,12 @@ func c13Exec(sc c13Scenario) string {
 	if res.OpensAfter != 0 {
 		return fmt.Sprintf("%d stream requests in the quiet window after shutdown (a pending rebalance reopened the stream)", res.OpensAfter)
 	}
+	if res.MemberOpsAfter != 0 {
+		return fmt.Sprintf("%d requests on membership documents in the quiet window after shutdown (heart-beat / monitor loop still running)", res.MemberOpsAfter)
+	}
+	if len(res.Leftover) != 0 {
+		return fmt.Sprintf("%d goroutine(s) still execute library code after shutdown and a quiet window (background activity not stopped): %s", len(res.Leftover), strings.Join(res.Leftover, "; "))
+	}
 	if res.ObservesAfter != 0 {
 		return fmt.Sprintf("%d OBSERVE_SEQNO requests in the quiet window after shutdown (rollback-mitigation polling still running)", res.ObservesAfter)
 	}
@@ -457,6 +499,7 @@ func c13Gen(rt *rapid.T) c13Scenario {
 		sc.Mitigate = true
 	}
 	sc.OldServer = rapid.IntRange(0, 3).Draw(rt, "oldserver") == 0
+	sc.CBMember = sc.Mitigate && sc.State != "gate_blocked" && !strings.HasPrefix(sc.State, "rebalance_") && rapid.IntRange(0, 3).Draw(rt, "cbmember") > 0
 	if sc.Mitigate {
 		sc.Health = false // the real client's Ping needs a management endpoint the simulated node does not offer
 		if sc.State == "rebalance_reopen" {
@@ -518,6 +561,9 @@ func TestC13_Shutdown(t *testing.T) {
 		}
 		if scs[i].Signal {
 			labs = append(labs, "sigterm")
+		}
+		if scs[i].CBMember {
+			labs = append(labs, "couchbase_membership")
 		}
 		if scs[i].OldServer && scs[i].NVb >= 2 {
 			labs = append(labs, "serial_close_server")
